@@ -114,6 +114,10 @@ static void valid_child(const void *job, size_t n) {
 	else check_getters(&M);
 	hx_emit_ledger_violations("C14");
 	hx_hash_t h; hx_hash_init(&h); hx_hash_str(&h, M.board_txt); hx_hash_str(&h, M.track_txt); hx_hash_str(&h, M.train_txt);
+	/* the outcome also covers what the library reports (acceptance, snapshot, start-up traffic): definedness differential */
+	hx_hash_add(&h, &rc, sizeof rc);
+	if (rc == 0) { static char dump[1 << 16]; sd_dump(dump, sizeof dump); hx_hash_str(&h, dump); }
+	for (int i = 0; i < SB.nlog; i++) { hx_hash_add(&h, SB.log[i].addr, 4); hx_hash_add(&h, &SB.log[i].type, 1); hx_hash_add(&h, SB.log[i].data, (size_t) SB.log[i].dlen); }
 	res_printf("O %llx %llx\n", (unsigned long long) h.a, (unsigned long long) h.b);
 	res_finish();
 }
